@@ -118,7 +118,7 @@ Proof. exact body_fixpoint_emitted. Qed.
    validator's guarantees, unless names are emitted AND synthesised (that case is open; every other section is proved for every
    configuration).  Ingredients: every emitted stream is canonical (section order, types strictly sorted and distinct, imports first,
    element tables canonical, one name section; bodies are flattenings of normal forms); on the second trip every renumbering is the identity;
-   hence every section is reproduced literally.  The second trip cannot fail (up to the stated premise on segment offsets).
+   hence every section is reproduced literally.  The second trip cannot fail.
    The unrestricted statement is FALSE OF THE MODEL: the witness has an out-of-range local index, which the model's [valid_stream] does not
    exclude and the model's parser turns into an invented local (the real validator rejects such a body; the fidelity gap of section 0.7) - under
    synthetic names the invented local gets a name on the second trip. *)
@@ -160,18 +160,26 @@ Theorem c08_module_fixpoint_all_but_names :
          ModFix8.name_payload (em_secs e2) = ModFix8.name_payload (em_secs e1) -> em_secs e2 = em_secs e1.
 Proof. exact module_fixpoint_but_names. Qed.
 
+(* the second trip cannot fail, and iterating the round trip any number of times gives the stream of the first trip *)
+From WV Require Import Proofs.ModFix32.
 Theorem c08_second_trip_total :
   forall (cf : config) (ver : str) (w : wmod) (s1 : pst) (ilen : wins -> N) (e1 : emitted),
          valid_stream w ->
          parseM cf ver w = POk s1 ->
          emitM (ps_m s1) ilen [] = Ok e1 ->
-         ModFix26.offsets_ok (ps_m s1) ->
          valid_stream (em_secs e1) /\
          (exists (s2 : pst) (e2 : emitted),
             parseM cf ver (em_secs e1) = POk s2 /\
             emitM (ps_m s2) ilen [] = Ok e2 /\
             (cf_skip_name cf = true \/ cf_synthetic_names cf = false -> em_secs e2 = em_secs e1)).
-Proof. exact ModFix31.module_fixpoint_total_partial. Qed.
+Proof. exact module_fixpoint_total. Qed.
+
+Theorem c08_round_trip_idempotent :
+  forall (cf : config) (ver : str) (ilen : wins -> N) (w w1 : wmod),
+         valid_stream w ->
+         cf_skip_name cf = true \/ cf_synthetic_names cf = false ->
+         trip cf ver ilen w = Some w1 -> forall n : nat, (n >= 1)%nat -> trips cf ver ilen n w = Some w1.
+Proof. exact emit_parse_idempotent_on_valid. Qed.
 
 Theorem c08_module_fixpoint_nonvacuous :
   exists (s1 : pst) (e1 : emitted) (s2 : pst) (e2 : emitted),
@@ -192,6 +200,36 @@ Theorem c08_fix_tables :
          two_trips cf ver w ilen s1 e1 s2 e2 ->
          flat_map Structure.tables_of (em_secs e2) = flat_map Structure.tables_of (em_secs e1).
 Proof. exact ModFix4.fix_tables. Qed.
+
+
+(* ---- the open case (names emitted AND synthesised) reduced to two visible facts about the second parse (it finds exactly the names the first
+   emit wrote); the parse invariants behind them (under synthetic names every local and every local function is named after parsing); the
+   refutation witness of the unrestricted statement has a local index out of range *)
+From WV Require Import Proofs.ModFix40.
+Theorem c08_module_fixpoint_all_configs_partial :
+  forall (cf : config) (ver : str) (w : wmod) (ilen : wins -> N) (s1 : pst) 
+           (e1 : emitted) (s2 : pst) (e2 : emitted),
+         two_trips cf ver w ilen s1 e1 s2 e2 ->
+         valid_stream w ->
+         (cf_skip_name cf = false ->
+          cf_synthetic_names cf = true ->
+          ModFix21.funcs_named_kept s2 (ModFix7.stream_names (em_secs e1)) /\
+          locals_named_kept s2 (ModFix7.stream_names (em_secs e1))) -> em_secs e2 = em_secs e1.
+Proof. exact module_fixpoint_all_configs_partial. Qed.
+
+Theorem c08_synthetic_names_every_local_named :
+  forall (cf : config) (ver : str) (w : wmod) (s : pst),
+         parseM cf ver w = POk s -> cf_synthetic_names cf = true -> LN (m_locals (ps_m s)).
+Proof. exact parseM_locals_named. Qed.
+
+Theorem c08_synthetic_names_every_function_named :
+  forall (cf : config) (ver : str) (w : wmod) (s : pst),
+         parseM cf ver w = POk s -> cf_synthetic_names cf = true -> Forall fnl (WV.Model.Arena.items (m_funcs (ps_m s))).
+Proof. exact parseM_funcs_named. Qed.
+
+Theorem c08_refutation_witness_has_local_out_of_range :
+  ~ locals_in_range ModFixEx.wP.
+Proof. exact wP_violates. Qed.
 
 
 From WV Require Gen.ConfigEmit Proofs.Config.
@@ -241,3 +279,8 @@ Print Assumptions c08_second_trip_total.
 Print Assumptions c08_module_fixpoint_nonvacuous.
 Print Assumptions c08_fix_types.
 Print Assumptions c08_fix_tables.
+Print Assumptions c08_round_trip_idempotent.
+Print Assumptions c08_module_fixpoint_all_configs_partial.
+Print Assumptions c08_synthetic_names_every_local_named.
+Print Assumptions c08_synthetic_names_every_function_named.
+Print Assumptions c08_refutation_witness_has_local_out_of_range.
